@@ -82,3 +82,41 @@ def entry_ancestors(P, target, stop=None, skip=None):
         else:
             work.extend(ups)
     return out
+
+
+def direct_callers(P, pred, skip=None):
+    """Functions (paths) containing a direct call whose callee (resolved or declared) satisfies pred."""
+    out = {}
+    for p, f in P.fns.items():
+        if skip and skip(f):
+            continue
+        for b, t in f.calls():
+            if pred(callee_of(t)) or pred(t["callee"]):
+                out.setdefault(p, Site(f, b))
+    return out
+
+
+def tops_of(P, start_paths, stop):
+    """Walk callers upwards from each start path until stop(path) or a function without callers."""
+    out = set()
+    seen = set()
+    work = list(start_paths)
+    cl = P.callers()
+    while work:
+        p = work.pop()
+        if p in seen:
+            continue
+        seen.add(p)
+        f = P.fn(p)
+        if f is not None and f.kind == "closure" and f.parent:
+            work.append(f.parent)
+            continue
+        if stop(p):
+            out.add(p)
+            continue
+        ups = [q for (q, b, k) in cl.get(p, ()) if k in ("call", "fnref", "dyn")]
+        if not ups:
+            out.add(p)
+        else:
+            work.extend(ups)
+    return out
